@@ -154,8 +154,8 @@ def main(argv):
         if h.startswith('S exception'):
             return None
         if solver.name == 'ocp':
-            import c13                      # its monitor includes the C03 relations for every exit status
-            return c13.monitor(o, h, st)
+            import loopmon                  # c13's monitor includes the C03 relations for every exit status
+            return loopmon.c13_part(o, h, st)   # (C13's own open finding is not a C03 matter)
         if solver.name == 'fista':
             return monitor(o, h, st, parse=solver.mod.parse_out)
         o2, h2 = solver.c03_view(o, h)
